@@ -125,4 +125,15 @@ TEXT["C02"] = {
     "note": _TB + "The sharding partial decoder and blosc's item-wise partial decode are corresponded (C02 harness, C15 bounds theorems), not part of the chain theorem; external compressors enter through the inversion law.",
     "technique": "Lean 4 compositional handle-invariant proof over partial decoders and chains + exhaustive sub-box differential reads",
 }
+TEXT["C14"] = {
+    "level": "Machine-checked proof that for every data type (bool, 8-64 bit integers, float16/bfloat16/float32/float64, complex64/128, raw bits of any width, byte strings, strings) and every fill value "
+             "the metadata conversion accepts, bytes -> metadata -> compact JSON text -> parsed document -> bytes is the identity: the JSON printer/parser pair is proved inverse on ALL documents (every string "
+             "escape, nested arrays/objects, number tokens), every non-finite float pattern (both infinities, canonical NaN, every other NaN payload/sign via hex strings) round-trips with no assumption, finite floats "
+             "round-trip given that serde_json reads back what it wrote (an explicit hypothesis, proved satisfiable by an exact-decimal codec and the correctly rounded reader), and widening to binary64 then narrowing "
+             "is the identity for all four formats. Rejection is proved as decision logic: accepted metadata has the data type's JSON kind and size, integers are accepted exactly within range. On the real code every "
+             "8-bit pattern, every float16/bfloat16 pattern, boundary-stratified and random 32/64/128-bit patterns go through DataType::metadata_fill_value/serde_json/fill_value_from_metadata and through a stored and "
+             "re-opened array; the text of each finite float is checked to denote the value by the model's correctly rounded decimal reader; ~900 JSON texts of wrong kind/range/malformed x 20 data types are classified.",
+    "note": _TB + "serde_json/ryu's decimal writer and reader are third-party code: their round trip is a hypothesis of the float theorems, checked on every generated finite float, not proved. A finite JSON number beyond a float type's range is read as IEEE conversion does (infinity), which the check accepts as the code's documented cast rather than demanding rejection.",
+    "technique": "Lean 4 proofs of JSON print/parse inversion, float widening/narrowing and fill-value metadata round trip + exhaustive 8/16-bit and stratified wide differential run",
+}
 NOT_YET = {}
